@@ -12,6 +12,7 @@
 -/
 import LcdbModel.Lemmas.PolicySetup
 import LcdbModel.Lemmas.PolicyTotal
+import LcdbModel.Lemmas.PolicyPick
 import LcdbModel.Props.C01
 namespace Lcdb.Policy
 open Lcdb.CmpBasic Lcdb.Lsm
@@ -293,5 +294,84 @@ example (s : Setup) (h : versionSetup .bytewise 100 exSt.levels 0 [f9, f12] = so
     (fun h => absurd rfl h) (by unfold LevelSeqDistinct; decide) h
 
 end Examples
+
+/-! ### pick_compaction, end to end -/
+
+/-- **`ldb_versions_pick_compaction` establishes the selection contract of a compaction step.**  Inputs as the C code reads
+    them: `sizeLevel = some l` iff `compaction_score ≥ 1` (with `compaction_level = l`), `seek = file_to_compact(_level)`,
+    `cp = compact_pointer[l]` (`none` = empty).  Under the LSM invariant, if the seek victim (only consulted when there is
+    no size compaction) is a file of its level, and no (user key, sequence) occurs twice inside `level` (≥ 1) / `level+1`,
+    then whatever compaction `(level, s)` is returned — size compaction by compact pointer incl. the wrap-around, seek
+    compaction, with the level-0 re-expansion — satisfies the first six conjuncts of
+    `Lsm.stepOk c st (.compact level (s.in0.map (·.num)) (s.in1.map (·.num)) outs)`.  (`level + 1 < 7` is a conclusion:
+    for other levels the model faults, as the C code reads out of bounds.) -/
+theorem pickCompaction_establishes_contract (c : Cmp) (st : DbState) (hinv : Inv c st) (mfs : Nat)
+    (sizeLevel : Option Nat) (seek : Option (Nat × FileMeta)) (cp : Option IKey) (level : Nat) (s : Setup)
+    (hseek : sizeLevel = none → ∀ l f, seek = some (l, f) → f ∈ st.level l)
+    (hd : level ≠ 0 → LevelSeqDistinct c (st.level level)) (hd1 : LevelSeqDistinct c (st.level (level + 1)))
+    (h : pickCompaction c mfs st.levels sizeLevel seek cp = some (some (level, s))) :
+    let in0 := s.in0.map (·.num)
+    let in1 := s.in1.map (·.num)
+    let ins := (pickNums (st.level level) in0 ++ pickNums (st.level (level + 1)) in1).flatMap (·.run)
+    level + 1 < 7 ∧ in0 ≠ [] ∧
+    (∀ n ∈ in0, ∃ f ∈ st.level level, f.num = n) ∧ (∀ n ∈ in1, ∃ f ∈ st.level (level + 1), f.num = n) ∧
+    (∀ g ∈ removeNums (st.level level) in0, ∀ f ∈ pickNums (st.level level) in0, NewerThan c g.run f.run) ∧
+    (∀ g ∈ removeNums (st.level (level + 1)) in1, NewerThan c g.run ins) := by
+  have hb : ∀ l, BoundsOk c (Version.files st.levels l) := fun l g hg =>
+    fileOk_boundsOk (hinv.filesOk g (mem_allFiles_of_mem_level hg))
+  obtain ⟨seed, hseed, hs⟩ := pickCompaction_seed hb hseek h
+  exact setupOtherInputs_establishes_contract c st hinv mfs level seed s hseed hd hd1 hs
+
+/-- size compactions (first file after the compact pointer, wrap-around included): no hypothesis on the inputs at all -/
+theorem pickCompaction_size_establishes_contract (c : Cmp) (st : DbState) (hinv : Inv c st) (mfs l : Nat)
+    (seek : Option (Nat × FileMeta)) (cp : Option IKey) (level : Nat) (s : Setup)
+    (hd : level ≠ 0 → LevelSeqDistinct c (st.level level)) (hd1 : LevelSeqDistinct c (st.level (level + 1)))
+    (h : pickCompaction c mfs st.levels (some l) seek cp = some (some (level, s))) :
+    let in0 := s.in0.map (·.num)
+    let in1 := s.in1.map (·.num)
+    let ins := (pickNums (st.level level) in0 ++ pickNums (st.level (level + 1)) in1).flatMap (·.run)
+    level + 1 < 7 ∧ in0 ≠ [] ∧
+    (∀ n ∈ in0, ∃ f ∈ st.level level, f.num = n) ∧ (∀ n ∈ in1, ∃ f ∈ st.level (level + 1), f.num = n) ∧
+    (∀ g ∈ removeNums (st.level level) in0, ∀ f ∈ pickNums (st.level level) in0, NewerThan c g.run f.run) ∧
+    (∀ g ∈ removeNums (st.level (level + 1)) in1, NewerThan c g.run ins) :=
+  pickCompaction_establishes_contract c st hinv mfs (some l) seek cp level s (fun h => by cases h) hd hd1 h
+
+/-- seek compactions: the victim must be a file of its level -/
+theorem pickCompaction_seek_establishes_contract (c : Cmp) (st : DbState) (hinv : Inv c st) (mfs l : Nat)
+    (f : FileMeta) (cp : Option IKey) (level : Nat) (s : Setup) (hf : f ∈ st.level l)
+    (hd : level ≠ 0 → LevelSeqDistinct c (st.level level)) (hd1 : LevelSeqDistinct c (st.level (level + 1)))
+    (h : pickCompaction c mfs st.levels none (some (l, f)) cp = some (some (level, s))) :
+    let in0 := s.in0.map (·.num)
+    let in1 := s.in1.map (·.num)
+    let ins := (pickNums (st.level level) in0 ++ pickNums (st.level (level + 1)) in1).flatMap (·.run)
+    level + 1 < 7 ∧ in0 ≠ [] ∧
+    (∀ n ∈ in0, ∃ f ∈ st.level level, f.num = n) ∧ (∀ n ∈ in1, ∃ f ∈ st.level (level + 1), f.num = n) ∧
+    (∀ g ∈ removeNums (st.level level) in0, ∀ f ∈ pickNums (st.level level) in0, NewerThan c g.run f.run) ∧
+    (∀ g ∈ removeNums (st.level (level + 1)) in1, NewerThan c g.run ins) :=
+  pickCompaction_establishes_contract c st hinv mfs none (some (l, f)) cp level s
+    (fun _ l' f' h' => by cases h'; exact hf) hd hd1 h
+
+section ExamplesPick
+open Lcdb.C01
+
+def showPick (r : Option (Option (Nat × Setup))) : Option (Option (Nat × List Nat × List Nat)) :=
+  r.map (fun o => o.map (fun p => (p.1, p.2.in0.map (·.num), p.2.in1.map (·.num))))
+
+-- seek compaction of the newer level-0 file `f12` [b..d]: the re-expansion hits the older `f9` [a..e], which widens the
+-- range; inputs[0] = {f9, f12}; inputs[1] = `f7` [c..e@10] plus its boundary file `f8` [e@9..f]
+example : showPick (pickCompaction .bytewise 100 exSt.levels none (some (0, f12)) none)
+    = some (some (0, [9, 12], [7, 8])) := by decide
+example (s : Setup) (h : pickCompaction .bytewise 100 exSt.levels none (some (0, f12)) none = some (some (0, s))) :=
+  pickCompaction_seek_establishes_contract .bytewise exSt exInv 100 0 f12 none 0 s (by decide)
+    (fun h => absurd rfl h) (by unfold LevelSeqDistinct; decide) h
+-- size compaction of level 1 with the compact pointer at `f8`'s largest key: nothing after it, wrap-around to `f7`,
+-- whose boundary file `f8` comes along
+example : showPick (pickCompaction .bytewise 100 exSt.levels (some 1) none (some ([102], 8 * 256 + 1)))
+    = some (some (1, [7, 8], [])) := by decide
+example (s : Setup) (h : pickCompaction .bytewise 100 exSt.levels (some 1) none (some ([102], 8 * 256 + 1)) = some (some (1, s))) :=
+  pickCompaction_size_establishes_contract .bytewise exSt exInv 100 1 none _ 1 s
+    (fun _ => by unfold LevelSeqDistinct; decide) (by unfold LevelSeqDistinct; decide) h
+
+end ExamplesPick
 
 end Lcdb.Policy
